@@ -790,14 +790,18 @@ class Parser:
         return expr
 
     def _continue_parsing_expression(
-        self, left: Node, exclude_in: bool = False
+        self, left: Node, exclude_in: bool = False, allow_sequence: bool = True
     ) -> Node:
         """Continue parsing an expression after we already have the left-hand side.
 
-        This handles binary operators, conditional, sequence, and assignment
-        starting from an already-parsed left operand.
+        This handles member access, calls, postfix and binary operators,
+        conditional, sequence, and assignment starting from an already-parsed
+        left operand.
         """
-        # First apply binary operators
+        # First member access, calls and postfix operators: ((a).b), ((f)(x))
+        left = self._continue_postfix_expression(left)
+
+        # Then binary operators
         left = self._continue_binary_expression(left, 0, exclude_in)
 
         # Then conditional
@@ -829,7 +833,7 @@ class Parser:
             left = AssignmentExpression(op, left, right)
 
         # Then sequence (comma)
-        if self._check(TokenType.COMMA):
+        if allow_sequence and self._check(TokenType.COMMA):
             expressions = [left]
             while self._match(TokenType.COMMA):
                 expressions.append(self._parse_assignment_expression(exclude_in))
@@ -983,8 +987,10 @@ class Parser:
 
     def _parse_postfix_expression(self) -> Node:
         """Parse postfix expression (member access, calls, postfix ++/--)."""
-        expr = self._parse_new_expression()
+        return self._continue_postfix_expression(self._parse_new_expression())
 
+    def _continue_postfix_expression(self, expr: Node) -> Node:
+        """Apply member access, calls and postfix ++/-- to an already parsed operand."""
         while True:
             if self._match(TokenType.DOT):
                 # Member access: a.b (keywords allowed as property names)
@@ -1180,8 +1186,11 @@ class Parser:
                 # Move up a level
                 current_depth -= 1
                 if current_depth >= 0:
-                    # Add this array as an element to the parent
-                    array_stack[current_depth].append(array_expr)
+                    # Add this array as an element to the parent; it may be the
+                    # start of a longer element: [[1, 2].length, [3] + 4]
+                    array_stack[current_depth].append(
+                        self._continue_array_element(array_expr)
+                    )
                 else:
                     # We're done
                     return array_expr
@@ -1210,12 +1219,20 @@ class Parser:
                         array_expr = ArrayExpression(array_stack[current_depth])
                         current_depth -= 1
                         if current_depth >= 0:
-                            array_stack[current_depth].append(array_expr)
+                            array_stack[current_depth].append(
+                                self._continue_array_element(array_expr)
+                            )
                         else:
                             return array_expr
 
         # Should not reach here
         raise self._error("Unexpected end of array")
+
+    def _continue_array_element(self, element: Node) -> Node:
+        """An inner array literal followed by anything but ',' or ']' starts a longer element."""
+        if self._check(TokenType.COMMA, TokenType.RBRACKET):
+            return element
+        return self._continue_parsing_expression(element, allow_sequence=False)
 
     def _parse_array_literal(self) -> ArrayExpression:
         """Parse array literal: [a, b, c]"""
